@@ -225,3 +225,44 @@ pub fn sdd_canon(p: SddPtr) -> String {
     }
     rec(p, &mut HashMap::new())
 }
+
+// ---------------------------------------------------------------------------------------------
+// sparse labels: truth tables over the k occurring labels of a diagram built in a wide manager
+
+/// truth table of a BDD over `k` table variables; `idx(label)` gives the table variable of a
+/// label (None = a label that must not occur: reported as Err)
+pub fn bdd_tt_mapped(p: BddPtr, k: usize, idx: &dyn Fn(usize) -> Option<usize>) -> Result<TT, String> {
+    Ok(match p {
+        BddPtr::PtrTrue => tt::mask(k),
+        BddPtr::PtrFalse => 0,
+        BddPtr::Reg(node) => {
+            let l = node.var.value_usize();
+            let v = idx(l).ok_or_else(|| format!("diagram mentions label {} which the input does not", l))?;
+            let x = tt::var(v, k);
+            (x & bdd_tt_mapped(node.high, k, idx)?) | (!x & bdd_tt_mapped(node.low, k, idx)? & tt::mask(k))
+        }
+        BddPtr::Compl(node) => tt::not(bdd_tt_mapped(BddPtr::Reg(node), k, idx)?, k),
+    })
+}
+
+pub fn sdd_tt_mapped(p: SddPtr, k: usize, idx: &dyn Fn(usize) -> Option<usize>) -> Result<TT, String> {
+    let look = |l: usize| idx(l).ok_or_else(|| format!("diagram mentions label {} which the input does not", l));
+    Ok(match p {
+        SddPtr::PtrTrue => tt::mask(k),
+        SddPtr::PtrFalse => 0,
+        SddPtr::Var(l, pol) => tt::lit(look(l.value_usize())?, pol, k),
+        SddPtr::BDD(b) => {
+            let x = tt::var(look(b.label().value_usize())?, k);
+            (x & sdd_tt_mapped(b.high(), k, idx)?) | (!x & sdd_tt_mapped(b.low(), k, idx)? & tt::mask(k))
+        }
+        SddPtr::ComplBDD(b) => tt::not(sdd_tt_mapped(SddPtr::BDD(b), k, idx)?, k),
+        SddPtr::Reg(or) => {
+            let mut r = 0;
+            for a in or.iter() {
+                r |= sdd_tt_mapped(a.prime, k, idx)? & sdd_tt_mapped(a.sub, k, idx)?;
+            }
+            r
+        }
+        SddPtr::Compl(or) => tt::not(sdd_tt_mapped(SddPtr::Reg(or), k, idx)?, k),
+    })
+}
